@@ -276,12 +276,32 @@ impl Parser {
             "sar" => RSVD::ArithmeticRightShift { shift: nx()?, value: nx()? },
             "cd" => {
                 let name = arr.get(1).map(|x| x.to_string()).unwrap_or_default();
+                let literal = arr.get(1).and_then(J::as_str).and_then(|s| Uuid::parse_str(s).ok());
                 RSVD::CallData {
-                    id:     self.id_for(&format!("cd{name}")),
+                    id:     literal.unwrap_or_else(|| self.id_for(&format!("cd{name}"))),
                     offset: nx()?,
                     size:   nx()?,
                 }
             }
+            "callv" => RSVD::CallWithValue {
+                gas:           nx()?,
+                address:       nx()?,
+                value:         nx()?,
+                argument_data: nx()?,
+                ret_offset:    nx()?,
+                ret_size:      nx()?,
+            },
+            "call" => RSVD::CallWithoutValue {
+                gas:           nx()?,
+                address:       nx()?,
+                argument_data: nx()?,
+                ret_offset:    nx()?,
+                ret_size:      nx()?,
+            },
+            "log" => RSVD::Log { data: nx()?, topics: it.by_ref().collect() },
+            "create" => RSVD::Create { value: nx()?, data: nx()? },
+            "create2" => RSVD::Create2 { value: nx()?, salt: nx()?, data: nx()? },
+            "extcodecopy" => RSVD::ExtCodeCopy { address: nx()?, offset: nx()?, size: nx()? },
             "calldatasize" => RSVD::CallDataSize,
             "codecopy" => RSVD::CodeCopy { offset: nx()?, size: nx()? },
             "extcodesize" => RSVD::ExtCodeSize { address: nx()? },
